@@ -25,8 +25,9 @@ type c18Input struct {
 	ID    int    `json:"id"`
 	Kind  string `json:"kind"`
 	Name  string `json:"name"`
-	Class string `json:"class"` // field | payload | envelope | bytes | corpus
+	Class string `json:"class"` // field | payload | envelope | bytes | embedded | corpus
 	Tx    string `json:"tx"`
+	World string `json:"world,omitempty"` // "" = the laboratory chain, "eth" = the chain with the Ethereum chain driver (c18eth.go)
 }
 
 var c18AmountValues = []string{"-1", "0", "1", "9223372036854775807", "9223372036854775808", "18446744073709551616", "10000000000000000000000000000000000000000", "-18446744073709551616"}
@@ -61,6 +62,106 @@ func c18HostileValues(s string, other keys.Address) []string {
 	return out
 }
 
+// c18KindInputs: every hostile variation of one valid transaction kind (payload fields, whole
+// payload, envelope), correctly signed wherever the envelope allows
+func c18KindInputs(add func(kind, name, class string, tx []byte), k labKind, memo func() string, attacker keys.Address) {
+	base := k.Build(memo())
+	btx := decodeSigned(base)
+	var m map[string]json.RawMessage
+	if json.Unmarshal(btx.Data, &m) != nil {
+		return
+	}
+	names := []string{}
+	for f := range m {
+		names = append(names, f)
+	}
+	sort.Strings(names)
+	rebuild := func(m2 map[string]json.RawMessage) []byte {
+		bz, _ := json.Marshal(m2)
+		raw := btx.RawTx
+		raw.Data = bz
+		raw.Memo = memo()
+		return resign(raw, k.Signers...)
+	}
+	for _, f := range names {
+		for vi, hv := range c18HostileValues(string(m[f]), attacker) {
+			m2 := map[string]json.RawMessage{}
+			for a, b := range m {
+				m2[a] = b
+			}
+			m2[f] = json.RawMessage(hv)
+			add(k.Name, fmt.Sprintf("%s=#%d", f, vi), "field", rebuild(m2))
+		}
+		m2 := map[string]json.RawMessage{}
+		for a, b := range m {
+			if a != f {
+				m2[a] = b
+			}
+		}
+		add(k.Name, f+"=<absent>", "field", rebuild(m2))
+	}
+	// whole-payload hostility
+	for pi, p := range []string{`{}`, `null`, `[]`, ``, `"x"`, `{"a":`, string(btx.Data) + "x", `7`} {
+		raw := btx.RawTx
+		raw.Data = []byte(p)
+		raw.Memo = memo()
+		add(k.Name, fmt.Sprintf("payload#%d", pi), "payload", resign(raw, k.Signers...))
+	}
+	// envelope hostility (fee, memo, signatures, type)
+	env := func(name string, f func(tx *action.SignedTx) bool) {
+		tx := decodeSigned(base)
+		tx.Memo = memo()
+		if f(tx) {
+			add(k.Name, name, "envelope", encodeSigned(tx))
+		}
+	}
+	envS := func(name string, f func(raw *action.RawTx)) { // correctly signed envelope change
+		raw := btx.RawTx
+		raw.Memo = memo()
+		f(&raw)
+		add(k.Name, name, "envelope", resign(raw, k.Signers...))
+	}
+	envS("fee.gas=-1", func(raw *action.RawTx) { raw.Fee.Gas = -1 })
+	envS("fee.gas=0", func(raw *action.RawTx) { raw.Fee.Gas = 0 })
+	envS("fee.gas=max", func(raw *action.RawTx) { raw.Fee.Gas = 9223372036854775807 })
+	envS("fee.price=-1", func(raw *action.RawTx) { raw.Fee.Price.Value = bigAmt("-1000000000") })
+	envS("fee.price=huge", func(raw *action.RawTx) { raw.Fee.Price.Value = bigAmt("100000000000000000000000000000000000000") })
+	envS("fee.price.currency=XYZ", func(raw *action.RawTx) { raw.Fee.Price.Currency = "XYZ" })
+	envS("fee.price.currency=ETH", func(raw *action.RawTx) { raw.Fee.Price.Currency = "ETH" })
+	envS("fee.price.currency=empty", func(raw *action.RawTx) { raw.Fee.Price.Currency = "" })
+	// near misses of the registered fee currency name (case, padding, control characters):
+	// what a validation that normalises names would let through to an exact-name lookup
+	for _, nm := range []string{"olt", "Olt", "oLT", " OLT", "OLT ", "OLT\x00", "ＯＬＴ"} {
+		nm := nm
+		envS("fee.price.currency~"+nm, func(raw *action.RawTx) { raw.Fee.Price.Currency = nm })
+	}
+	envS("type=unknown", func(raw *action.RawTx) { raw.Type = action.Type(0x7fff) })
+	envS("type=negative", func(raw *action.RawTx) { raw.Type = action.Type(-5) })
+	envS("memo=long", func(raw *action.RawTx) { raw.Memo = strings.Repeat("m", 20000) })
+	env("signatures=none", func(tx *action.SignedTx) bool { tx.Signatures = nil; return true })
+	env("signature.key=empty", func(tx *action.SignedTx) bool { tx.Signatures[0].Signer = keys.PublicKey{}; return true })
+	env("signature.key=short", func(tx *action.SignedTx) bool {
+		p := tx.Signatures[0].Signer
+		p.Data = p.Data[:5]
+		tx.Signatures[0].Signer = p
+		return true
+	})
+	{
+		tx := decodeSigned(base)
+		tx.Memo = memo()
+		bz := encodeSigned(tx)
+		add(k.Name, "signature.alg=unknown", "envelope", []byte(strings.Replace(string(bz), `"keyType":"ed25519"`, `"keyType":"zz"`, 1)))
+		add(k.Name, "signature.alg=number", "envelope", []byte(strings.Replace(string(bz), `"keyType":"ed25519"`, `"keyType":7`, 1)))
+	}
+	env("signature.bytes=empty", func(tx *action.SignedTx) bool { tx.Signatures[0].Signed = nil; return true })
+	env("signatures=100", func(tx *action.SignedTx) bool {
+		for i := 0; i < 100; i++ {
+			tx.Signatures = append(tx.Signatures, tx.Signatures[0])
+		}
+		return true
+	})
+}
+
 func c18Generate(seed int64) []c18Input {
 	r := rand.New(rand.NewSource(seed))
 	l := newLab(0)
@@ -70,102 +171,9 @@ func c18Generate(seed int64) []c18Input {
 		ins = append(ins, c18Input{ID: len(ins), Kind: kind, Name: name, Class: class, Tx: hex.EncodeToString(tx)})
 	}
 	for _, k := range l.Kinds {
-		base := k.Build(l.memo())
-		btx := decodeSigned(base)
-		var m map[string]json.RawMessage
-		if json.Unmarshal(btx.Data, &m) != nil {
-			continue
-		}
-		names := []string{}
-		for f := range m {
-			names = append(names, f)
-		}
-		sort.Strings(names)
-		rebuild := func(m2 map[string]json.RawMessage) []byte {
-			bz, _ := json.Marshal(m2)
-			raw := btx.RawTx
-			raw.Data = bz
-			raw.Memo = l.memo()
-			return resign(raw, k.Signers...)
-		}
-		for _, f := range names {
-			for vi, hv := range c18HostileValues(string(m[f]), l.Attacker.Addr) {
-				m2 := map[string]json.RawMessage{}
-				for a, b := range m {
-					m2[a] = b
-				}
-				m2[f] = json.RawMessage(hv)
-				add(k.Name, fmt.Sprintf("%s=#%d", f, vi), "field", rebuild(m2))
-			}
-			m2 := map[string]json.RawMessage{}
-			for a, b := range m {
-				if a != f {
-					m2[a] = b
-				}
-			}
-			add(k.Name, f+"=<absent>", "field", rebuild(m2))
-		}
-		// whole-payload hostility
-		for pi, p := range []string{`{}`, `null`, `[]`, ``, `"x"`, `{"a":`, string(btx.Data) + "x", `7`} {
-			raw := btx.RawTx
-			raw.Data = []byte(p)
-			raw.Memo = l.memo()
-			add(k.Name, fmt.Sprintf("payload#%d", pi), "payload", resign(raw, k.Signers...))
-		}
-		// envelope hostility (fee, memo, signatures, type)
-		env := func(name string, f func(tx *action.SignedTx) bool) {
-			tx := decodeSigned(base)
-			tx.Memo = l.memo()
-			if f(tx) {
-				add(k.Name, name, "envelope", encodeSigned(tx))
-			}
-		}
-		envS := func(name string, f func(raw *action.RawTx)) { // correctly signed envelope change
-			raw := btx.RawTx
-			raw.Memo = l.memo()
-			f(&raw)
-			add(k.Name, name, "envelope", resign(raw, k.Signers...))
-		}
-		envS("fee.gas=-1", func(raw *action.RawTx) { raw.Fee.Gas = -1 })
-		envS("fee.gas=0", func(raw *action.RawTx) { raw.Fee.Gas = 0 })
-		envS("fee.gas=max", func(raw *action.RawTx) { raw.Fee.Gas = 9223372036854775807 })
-		envS("fee.price=-1", func(raw *action.RawTx) { raw.Fee.Price.Value = bigAmt("-1000000000") })
-		envS("fee.price=huge", func(raw *action.RawTx) { raw.Fee.Price.Value = bigAmt("100000000000000000000000000000000000000") })
-		envS("fee.price.currency=XYZ", func(raw *action.RawTx) { raw.Fee.Price.Currency = "XYZ" })
-		envS("fee.price.currency=ETH", func(raw *action.RawTx) { raw.Fee.Price.Currency = "ETH" })
-		envS("fee.price.currency=empty", func(raw *action.RawTx) { raw.Fee.Price.Currency = "" })
-		// near misses of the registered fee currency name (case, padding, control characters):
-		// what a validation that normalises names would let through to an exact-name lookup
-		for _, nm := range []string{"olt", "Olt", "oLT", " OLT", "OLT ", "OLT\x00", "ＯＬＴ"} {
-			nm := nm
-			envS("fee.price.currency~"+nm, func(raw *action.RawTx) { raw.Fee.Price.Currency = nm })
-		}
-		envS("type=unknown", func(raw *action.RawTx) { raw.Type = action.Type(0x7fff) })
-		envS("type=negative", func(raw *action.RawTx) { raw.Type = action.Type(-5) })
-		envS("memo=long", func(raw *action.RawTx) { raw.Memo = strings.Repeat("m", 20000) })
-		env("signatures=none", func(tx *action.SignedTx) bool { tx.Signatures = nil; return true })
-		env("signature.key=empty", func(tx *action.SignedTx) bool { tx.Signatures[0].Signer = keys.PublicKey{}; return true })
-		env("signature.key=short", func(tx *action.SignedTx) bool {
-			p := tx.Signatures[0].Signer
-			p.Data = p.Data[:5]
-			tx.Signatures[0].Signer = p
-			return true
-		})
-		{
-			tx := decodeSigned(base)
-			tx.Memo = l.memo()
-			bz := encodeSigned(tx)
-			add(k.Name, "signature.alg=unknown", "envelope", []byte(strings.Replace(string(bz), `"keyType":"ed25519"`, `"keyType":"zz"`, 1)))
-			add(k.Name, "signature.alg=number", "envelope", []byte(strings.Replace(string(bz), `"keyType":"ed25519"`, `"keyType":7`, 1)))
-		}
-		env("signature.bytes=empty", func(tx *action.SignedTx) bool { tx.Signatures[0].Signed = nil; return true })
-		env("signatures=100", func(tx *action.SignedTx) bool {
-			for i := 0; i < 100; i++ {
-				tx.Signatures = append(tx.Signatures, tx.Signatures[0])
-			}
-			return true
-		})
+		c18KindInputs(add, k, l.memo, l.Attacker.Addr)
 	}
+	c18OLVMInputs(l, add)
 	// malformed bytes
 	raws := [][]byte{{}, []byte("{"), []byte("null"), []byte("[]"), []byte("0"), []byte("\"x\""), []byte("{}"), []byte(`{"type":1}`), []byte(`{"type":"x"}`),
 		[]byte(`{"type":1,"data":"!!!"}`), []byte(`{"type":1,"data":null,"fee":null,"memo":null,"signatures":null}`), []byte(`{"type":99999999999999999999}`),
@@ -194,17 +202,47 @@ func c18Generate(seed int64) []c18Input {
 	for i, b := range raws {
 		add("-", fmt.Sprintf("bytes#%d", i), "bytes", b)
 	}
+	// second chain: kinds with an embedded Ethereum transaction
+	e := newC18Eth()
+	defer func() { defer func() { recover() }(); e.w.rep.Close() }()
+	e.generate(func(kind, name, class string, tx []byte) {
+		ins = append(ins, c18Input{ID: len(ins), Kind: kind, Name: name, Class: class, Tx: hex.EncodeToString(tx), World: "eth"})
+	})
 	return ins
 }
 
 // worker: run the given inputs one by one; after each, a probe transaction must still succeed
 func c18Run(ins []c18Input, mode string) int {
-	l := newLab(0)
-	w := l.W
+	rc := 0
+	for _, world := range []string{"", "eth"} {
+		sel := []c18Input{}
+		for _, in := range ins {
+			if in.World == world {
+				sel = append(sel, in)
+			}
+		}
+		if len(sel) > 0 && rc == 0 {
+			rc = c18RunWorld(sel, mode, world)
+		}
+	}
+	return rc
+}
+
+func c18RunWorld(ins []c18Input, mode string, world string) int {
+	var rep *Replica
+	var from, to Key
+	if world == "eth" {
+		e := newC18Eth()
+		rep, from, to = e.w.rep, e.w.idKey[3], e.w.idKey[4]
+	} else {
+		l := newLab(0)
+		rep, from, to = l.Rep, l.W.Users[4], l.W.Users[3]
+	}
+	l := struct{ Rep *Replica }{rep}
 	probeN := 0
 	probe := func() bool {
 		probeN++
-		tx := txSend(w.Users[4], w.Users[3].Addr, oltAmt("1000"), fmt.Sprintf("probe%d", probeN))
+		tx := txSend(from, to.Addr, oltAmt("1000"), fmt.Sprintf("probe%d", probeN))
 		if c := l.Rep.CheckTx(tx); c.Code != 0 {
 			return false
 		}
